@@ -9,7 +9,7 @@ def gen_migrate_ss(rng, big=False):
     return schedgen.gen_migrate(rng, big, self_suspend=True)
 
 
-FAMS = [schedgen.gen_join, schedgen.gen_basic]
+FAMS = [schedgen.gen_join, schedgen.gen_basic, schedgen.gen_join_shared]
 NAME_RE = r"^(C03_|C12_free_once)"
 MANIFEST = {
     "text": "Theorems (Coq, every number of units/pools, every interleaving of the scheduler LTS whose labels are the ABT_VERIF hook "
